@@ -20,7 +20,7 @@ HASH_HEAVY = [
     ("TryInto", "#[try_into(ref)] enum E { A(u8), B(u16), #[try_into(owned, ref_mut)] C(u32), D(u64), #[try_into(ref_mut)] F(u8), G(u16, u32), H(u32, u16) }"),
     ("FromStr", "enum E { Alpha, Beta, Gamma, Delta, Epsilon, Zeta, Eta, Theta, Iota, Kappa, Lambda, Mu, Nu, Xi, Omicron, Pi, Rho, Sigma, Tau, Upsilon }"),
     ("FromStr", "enum E { Ab, AB, aB, ab, Cd, CD, cd, Ef, EF, Gh, gh, GH, Ij, Kl, KL, Mn }"),
-    ("FromStr", "#[from_str(rename_all = \"snake_case\")] enum E { FooBar, Foo_Bar, foo_bar, FOOBAR, BazQux, baz_qux, Quux }"),
+    ("FromStr", "enum E { FooBar, Foo_Bar, foo_bar, FOOBAR, BazQux, baz_qux, Quux }"),
     ("Mul", "struct S { a: u8, b: u16, c: u32, d: u64, e: i8, f: i16, g: i32, h: i64, i: f32, j: f64, k: u8, l: i64 }"),
     ("Mul", "struct S<T, U>(T, U, Vec<T>, Option<U>, u8, T, Box<U>, i32);"),
     ("Div", "struct S(u8, u16, u32, u64, i8, i16, i32, i64, usize, isize, u128, i128);"),
@@ -88,7 +88,7 @@ def real_macro_runs(res, n):
     """The C15 corpus expanded by rustc itself (`-Zunpretty=expanded`, nightly) in `n` fresh compiler
     processes with the proc-macro rebuilt from the working tree: byte comparison."""
     corpus = open(os.path.join(C.VERIF, "checks", "data", "c15_corpus.rs")).read()
-    extra = "\n".join(f"pub mod h{i} {{ #[derive(derive_more::{d})] pub {src} }}" for i, (d, src) in enumerate(HASH_HEAVY)
+    extra = "\n".join(f"pub mod h{i} {{ #[derive(derive_more::{d})] {src} }}" for i, (d, src) in enumerate(HASH_HEAVY)
                       if d in ("TryInto", "FromStr", "Mul", "Div", "MulAssign", "ShlAssign", "IsVariant"))
     d = C.scratch_crate("c19-expand", "#![allow(dead_code, unused)]\n" + corpus + "\n" + extra + "\nfn main() {}\n")
     outs = []
